@@ -42,6 +42,20 @@ type Own struct {
 	Friends  []*Own    `gorm:"many2many:own_friends"`
 	XTags    []XTag    `gorm:"many2many:own_xtags;foreignKey:ID;joinForeignKey:OwnerRef;references:ID;joinReferences:TagRef"`
 	Stickers []Sticker `gorm:"polymorphic:Owner;polymorphicValue:xp;polymorphicType:Kind;polymorphicId:OID"`
+	// targets with COMPOSITE STRING keys (parts contain the identity-key separator and escape character)
+	CKids []CKid `gorm:"foreignKey:OwnID"`
+	CTags []CTag `gorm:"many2many:own_ctags"`
+}
+type CKid struct {
+	A     string `gorm:"primaryKey"`
+	B     string `gorm:"primaryKey"`
+	Name  string
+	OwnID *int64
+}
+type CTag struct {
+	A    string `gorm:"primaryKey"`
+	B    string `gorm:"primaryKey"`
+	Name string
 }
 type OneV struct {
 	ID    int64 `gorm:"primaryKey"`
@@ -105,6 +119,7 @@ type RelD struct {
 	FK     string // has-kinds: fk column on the child table; belongs: fk column on owns
 	Poly   bool
 	TypeC  string // polymorphic: type column ("" = owner_type)
+	CK     bool   // the target's primary key is the composite string key (a, b); ids are mapped through ckKeys
 	JTable string
 	JOwner string
 	JTgt   string
@@ -123,9 +138,11 @@ var rels = map[string]RelD{
 	"TargetV":  {Name: "TargetV", Kind: "KBelongs", Table: "tgt_vs", FK: "target_v_id", Elem: reflect.TypeOf(TgtV{})},
 	"Friends":  {Name: "Friends", Kind: "KM2M", Table: "owns", JTable: "own_friends", JOwner: "own_id", JTgt: "friend_id", Elem: reflect.TypeOf(Own{})},
 	"XTags":    {Name: "XTags", Kind: "KM2M", Table: "x_tags", JTable: "own_xtags", JOwner: "owner_ref", JTgt: "tag_ref", Elem: reflect.TypeOf(XTag{})},
+	"CKids":    {Name: "CKids", Kind: "KHasMany", Table: "c_kids", FK: "own_id", CK: true, Elem: reflect.TypeOf(CKid{})},
+	"CTags":    {Name: "CTags", Kind: "KM2M", Table: "c_tags", JTable: "own_ctags", JOwner: "own_id", JTgt: "c_tag", CK: true, Elem: reflect.TypeOf(CTag{})},
 	"Stickers": {Name: "Stickers", Kind: "KHasMany", Table: "stickers", FK: "o_id", Poly: true, TypeC: "kind", Elem: reflect.TypeOf(Sticker{})},
 }
-var relNames = []string{"One", "Many", "Notes", "Notes", "Badge", "Target", "Tags", "PTags", "OneV", "TargetV", "Friends", "XTags", "Stickers"}
+var relNames = []string{"One", "Many", "Notes", "Notes", "Badge", "Target", "Tags", "PTags", "OneV", "TargetV", "Friends", "XTags", "Stickers", "CKids", "CKids", "CTags", "CTags"}
 
 func (r RelD) typeCol() string {
 	if r.TypeC != "" {
@@ -134,8 +151,67 @@ func (r RelD) typeCol() string {
 	return "owner_type"
 }
 
-// primary keys are int64 or uint fields
+// ckKeys: the composite string keys of the CK relations; record id = 11 + index.  Neighbouring keys
+// differ only in where the identity-key separator '_' and the escape character '\' sit.
+var ckKeys = [][2]string{
+	{"a_b", "c"}, {"a", "b_c"}, {"a_", "b_c"}, {"a", "_b_c"}, {"a\\", "_b"}, {"a", "\\_b"},
+	{"nil", "x"}, {"nil_x", "y"}, {"n", "il_x"}, {"x_y", "z_w"}, {"x", "y_z_w"}, {"x_y_z", "w"},
+	{"p\\_q", "r"}, {"p", "q_r"}, {"p_q", "r"}, {"\\", "_"}, {"_", "\\"}, {"__", "_"}, {"_", "__"}, {"s", "t"},
+	{"s_", "t"}, {"s", "_t"}, {"u\\_", "v"}, {"u", "_v"}, {"u_", "v"}, {"w", "x"}, {"w_x", "y"}, {"w", "x_y"}, {"m", "n"}, {"m_n", "o"},
+}
+
+func ckKey(id int64) (string, string) {
+	if i := int(id - 11); i >= 0 && i < len(ckKeys) {
+		return ckKeys[i][0], ckKeys[i][1]
+	}
+	return fmt.Sprint("id", id), fmt.Sprint("x", id)
+}
+func ckID(a, b string) int64 {
+	for i, k := range ckKeys {
+		if k[0] == a && k[1] == b {
+			return int64(11 + i)
+		}
+	}
+	var id int64
+	if n, _ := fmt.Sscanf(a, "id%d", &id); n == 1 {
+		return id
+	}
+	return 0
+}
+
+// ckCase: SQL expression giving the record id of the composite key held by columns ca, cb.
+func ckCase(ca, cb string) string {
+	var sb strings.Builder
+	sb.WriteString("CASE " + ca + " || '|' || " + cb)
+	for i, k := range ckKeys {
+		fmt.Fprintf(&sb, " WHEN '%s|%s' THEN %d", k[0], k[1], 11+i)
+	}
+	sb.WriteString(" ELSE CAST(substr(" + ca + ", 3) AS INTEGER) END")
+	return sb.String()
+}
+
+// idExpr / jtgtExpr: the SQL expressions standing for "the target's id" in the target table / join table.
+func (r RelD) idExpr() string {
+	if r.CK {
+		return ckCase("a", "b")
+	}
+	return "id"
+}
+func (r RelD) jtgtExpr() string {
+	if r.CK {
+		return ckCase(r.JTgt+"_a", r.JTgt+"_b")
+	}
+	return r.JTgt
+}
+
+// primary keys are int64 or uint fields (or the composite string key of the CK relations)
 func getID(v reflect.Value) int64 {
+	if a := reflect.Indirect(v).FieldByName("A"); a.IsValid() {
+		if a.String() == "" && reflect.Indirect(v).FieldByName("B").String() == "" {
+			return 0
+		}
+		return ckID(a.String(), reflect.Indirect(v).FieldByName("B").String())
+	}
 	f := reflect.Indirect(v).FieldByName("ID")
 	if f.Kind() == reflect.Uint {
 		return int64(f.Uint())
@@ -143,6 +219,14 @@ func getID(v reflect.Value) int64 {
 	return f.Int()
 }
 func setID(v reflect.Value, id int64) {
+	if a := reflect.Indirect(v).FieldByName("A"); a.IsValid() {
+		if id != 0 {
+			ka, kb := ckKey(id)
+			a.SetString(ka)
+			reflect.Indirect(v).FieldByName("B").SetString(kb)
+		}
+		return
+	}
 	f := reflect.Indirect(v).FieldByName("ID")
 	if f.Kind() == reflect.Uint {
 		f.SetUint(uint64(id))
@@ -227,12 +311,12 @@ func (e *Env) linksOf(r RelD, owner int64) []int64 {
 	case "KBelongs":
 		return sorted(e.ints("SELECT "+r.FK+" FROM owns WHERE id = ?", owner))
 	case "KM2M":
-		return sorted(e.ints("SELECT "+r.JTgt+" FROM "+r.JTable+" WHERE "+r.JOwner+" = ?", owner))
+		return sorted(e.ints("SELECT "+r.jtgtExpr()+" FROM "+r.JTable+" WHERE "+r.JOwner+" = ?", owner))
 	}
 	if r.Poly {
-		return sorted(e.ints("SELECT id FROM "+r.Table+" WHERE "+r.FK+" = ? AND "+r.typeCol()+" = 'xp'", owner))
+		return sorted(e.ints("SELECT "+r.idExpr()+" FROM "+r.Table+" WHERE "+r.FK+" = ? AND "+r.typeCol()+" = 'xp'", owner))
 	}
-	return sorted(e.ints("SELECT id FROM "+r.Table+" WHERE "+r.FK+" = ?", owner))
+	return sorted(e.ints("SELECT "+r.idExpr()+" FROM "+r.Table+" WHERE "+r.FK+" = ?", owner))
 }
 
 // othersOf reads, by raw SQL, every link of the relation's tables that does not belong to the handle:
@@ -260,7 +344,7 @@ func (e *Env) othersOf(r RelD, handle []int64) [][2]int64 {
 			}
 		}
 	case "KM2M":
-		rows, err := e.sql.Query("SELECT " + r.JOwner + ", " + r.JTgt + " FROM " + r.JTable + " ORDER BY 1, 2")
+		rows, err := e.sql.Query("SELECT " + r.JOwner + ", " + r.jtgtExpr() + " FROM " + r.JTable + " ORDER BY 1, 2")
 		lib.Must(err)
 		defer rows.Close()
 		for rows.Next() {
@@ -271,7 +355,7 @@ func (e *Env) othersOf(r RelD, handle []int64) [][2]int64 {
 			}
 		}
 	default:
-		q := "SELECT id, " + r.FK + ", 'xp' FROM " + r.Table + " WHERE " + r.FK + " IS NOT NULL ORDER BY id"
+		q := "SELECT " + r.idExpr() + ", " + r.FK + ", 'xp' FROM " + r.Table + " WHERE " + r.FK + " IS NOT NULL ORDER BY 1"
 		if r.Poly {
 			q = "SELECT id, " + r.FK + ", " + r.typeCol() + " FROM " + r.Table + " WHERE " + r.FK + " IS NOT NULL ORDER BY id"
 		}
@@ -327,7 +411,7 @@ type Result struct {
 }
 
 func (e *Env) reset() {
-	for _, t := range []string{"one_vs", "tgt_vs", "x_tags", "stickers", "own_friends", "own_xtags", "owns", "ones", "manies", "notes", "badges", "tgts", "tags", "p_tags", "own_tags", "own_ptags"} {
+	for _, t := range []string{"c_kids", "c_tags", "own_ctags", "one_vs", "tgt_vs", "x_tags", "stickers", "own_friends", "own_xtags", "owns", "ones", "manies", "notes", "badges", "tgts", "tags", "p_tags", "own_tags", "own_ptags"} {
 		lib.Must(e.db.Exec("DELETE FROM " + t).Error)
 	}
 	e.db.Exec("DELETE FROM sqlite_sequence")
@@ -344,6 +428,9 @@ func (e *Env) run(in Input) Result {
 		switch {
 		case r.Poly:
 			lib.Must(db.Exec("INSERT INTO "+r.Table+" (id, name, "+r.typeCol()+") VALUES (?, ?, 'xp')", t, fmt.Sprint("t", t)).Error)
+		case r.CK:
+			ka, kb := ckKey(t)
+			lib.Must(db.Exec("INSERT INTO "+r.Table+" (a, b, name) VALUES (?, ?, ?)", ka, kb, fmt.Sprint("t", t)).Error)
 		default:
 			lib.Must(db.Exec("INSERT INTO "+r.Table+" (id, name) VALUES (?, ?)", t, fmt.Sprint("t", t)).Error)
 		}
@@ -353,12 +440,22 @@ func (e *Env) run(in Input) Result {
 		case "KBelongs":
 			lib.Must(db.Exec("UPDATE owns SET "+r.FK+" = ? WHERE id = ?", l.Target, l.Owner).Error)
 		case "KM2M":
-			lib.Must(db.Exec("INSERT INTO "+r.JTable+" ("+r.JOwner+", "+r.JTgt+") VALUES (?, ?)", l.Owner, l.Target).Error)
+			if r.CK {
+				ka, kb := ckKey(l.Target)
+				lib.Must(db.Exec("INSERT INTO "+r.JTable+" ("+r.JOwner+", "+r.JTgt+"_a, "+r.JTgt+"_b) VALUES (?, ?, ?)", l.Owner, ka, kb).Error)
+			} else {
+				lib.Must(db.Exec("INSERT INTO "+r.JTable+" ("+r.JOwner+", "+r.JTgt+") VALUES (?, ?)", l.Owner, l.Target).Error)
+			}
 		default:
 			if r.Poly && l.Other {
 				lib.Must(db.Exec("UPDATE "+r.Table+" SET "+r.FK+" = ?, "+r.typeCol()+" = 'other' WHERE id = ?", l.Owner, l.Target).Error)
 			} else {
-				lib.Must(db.Exec("UPDATE "+r.Table+" SET "+r.FK+" = ? WHERE id = ?", l.Owner, l.Target).Error)
+				if r.CK {
+					ka, kb := ckKey(l.Target)
+					lib.Must(db.Exec("UPDATE "+r.Table+" SET "+r.FK+" = ? WHERE a = ? AND b = ?", l.Owner, ka, kb).Error)
+				} else {
+					lib.Must(db.Exec("UPDATE "+r.Table+" SET "+r.FK+" = ? WHERE id = ?", l.Owner, l.Target).Error)
+				}
 			}
 		}
 	}
@@ -376,9 +473,9 @@ func (e *Env) run(in Input) Result {
 			res.Init.Rows = append(res.Init.Rows, [2]int64{id, fk.Int64})
 		}
 		rows.Close()
-		res.Init.Tgt = e.ints("SELECT id FROM " + r.Table + " ORDER BY id")
+		res.Init.Tgt = e.ints("SELECT " + r.idExpr() + " FROM " + r.Table + " ORDER BY 1")
 	case "KM2M":
-		rows, err := e.sql.Query("SELECT " + r.JOwner + ", " + r.JTgt + " FROM " + r.JTable + " ORDER BY rowid")
+		rows, err := e.sql.Query("SELECT " + r.JOwner + ", " + r.jtgtExpr() + " FROM " + r.JTable + " ORDER BY rowid")
 		lib.Must(err)
 		for rows.Next() {
 			var a, b int64
@@ -386,9 +483,9 @@ func (e *Env) run(in Input) Result {
 			res.Init.Joins = append(res.Init.Joins, [2]int64{a, b})
 		}
 		rows.Close()
-		res.Init.Tgt = e.ints("SELECT id FROM " + r.Table + " ORDER BY id")
+		res.Init.Tgt = e.ints("SELECT " + r.idExpr() + " FROM " + r.Table + " ORDER BY 1")
 	default:
-		q := "SELECT id, " + r.FK + ", '' FROM " + r.Table + " ORDER BY id"
+		q := "SELECT " + r.idExpr() + ", " + r.FK + ", '' FROM " + r.Table + " ORDER BY 1"
 		if r.Poly {
 			q = "SELECT id, " + r.FK + ", " + r.typeCol() + " FROM " + r.Table + " ORDER BY id"
 		}
@@ -447,7 +544,7 @@ func (e *Env) run(in Input) Result {
 			all = append(all, l...)
 			s.Mem = append(s.Mem, fieldIDs(reflect.ValueOf(owners[i]), r.Name))
 		}
-		s.Tgts = e.ints("SELECT id FROM " + r.Table + " ORDER BY id")
+		s.Tgts = e.ints("SELECT " + r.idExpr() + " FROM " + r.Table + " ORDER BY 1")
 		s.Other = e.othersOf(r, in.Owners)
 		s.Count = handle().Count()
 		out := reflect.New(reflect.SliceOf(r.Elem))
@@ -467,6 +564,7 @@ func (e *Env) run(in Input) Result {
 	res.Snap0 = snap(nil)
 
 	var created []int64
+	freshCK := int64(19)
 	for _, op0 := range in.Ops {
 		op := op0
 		op.Del = append([]int64{}, op0.Del...)
@@ -486,6 +584,10 @@ func (e *Env) run(in Input) Result {
 					p, ok := same[id]
 					if !ok || !op.SamePtr || id == 0 {
 						p = reflect.New(r.Elem)
+						if id == 0 && r.CK { // composite string keys are never generated by the database
+							freshCK++
+							setID(p, freshCK)
+						}
 						setID(p, id)
 						p.Elem().FieldByName("Name").SetString(fmt.Sprint("v", id))
 						same[id] = p
@@ -931,7 +1033,7 @@ func main() {
 	a := lib.ParseArgs()
 	db, _, sqlDB, err := gdb.Open(gdb.Opt{})
 	lib.Must(err)
-	lib.Must(db.AutoMigrate(&Tgt{}, &Tag{}, &PTag{}, &TgtV{}, &XTag{}, &Own{}, &One{}, &Many{}, &Note{}, &Badge{}, &OneV{}, &Sticker{}))
+	lib.Must(db.AutoMigrate(&Tgt{}, &Tag{}, &PTag{}, &TgtV{}, &XTag{}, &Own{}, &One{}, &Many{}, &Note{}, &Badge{}, &OneV{}, &Sticker{}, &CTag{}, &CKid{}))
 	env := &Env{db: db, sql: sqlDB}
 	out := lib.NewOut(a.Out, "C12")
 	out.PerFile = 200
@@ -1028,6 +1130,6 @@ func main() {
 		out.Count("known_shape", sig(in))
 		add(kind, in)
 	}
-	out.Extra["rule"] = "cases = histories of 1..8 (thorough 12) operations Append/Replace/Delete/Clear, each scoped or Unscoped, on one relation of kind {has one (pointer field / field by value), has many (by tags / by naming convention), polymorphic has many and polymorphic has one (next to rows of ANOTHER owner type that carry the same owner ids, and that may be moved into the relation or named in its Delete), belongs to, belongs to by value, many2many with struct elements / pointer elements / every key named by tags / self-referential, polymorphic with renamed type and id columns}, optionally with Session{FullSaveAssociations: true}, through db.Model(&owner) or db.Model(&owners) (a fresh *Association per call, or - one history in five - ONE handle kept and reused for every operation, Count and Find) with 1..3 owners that start without links, next to 0..2 outside owners with existing links; every operation also with no target at all (Append(), Replace(), Delete()); targets are new records, existing unlinked rows, rows linked to the same owner, rows linked to outside owners, and duplicates (equal copies or THE SAME object repeated inside a slice argument and followed by further targets; variadic or one slice argument); Count(), Find(), raw foreign keys / join rows of the handle AND of every other owner / owner type, the target table and the in-memory fields are read after every operation; domain: for has one / has many / polymorphic a target is never given to two different owners of one handle; distinct = distinct (relation, handle, table sizes, operation sequence with sizes) shapes; non-trivial = the stored links change at least twice"
+	out.Extra["rule"] = "cases = histories of 1..8 (thorough 12) operations Append/Replace/Delete/Clear, each scoped or Unscoped, on one relation of kind {has one (pointer field / field by value), has many (by tags / by naming convention), polymorphic has many and polymorphic has one (next to rows of ANOTHER owner type that carry the same owner ids, and that may be moved into the relation or named in its Delete), belongs to, belongs to by value, many2many with struct elements / pointer elements / every key named by tags / self-referential, polymorphic with renamed type and id columns, has many / many2many whose TARGETS have composite string keys that differ only in where the identity-key separator and escape character sit}, optionally with Session{FullSaveAssociations: true}, through db.Model(&owner) or db.Model(&owners) (a fresh *Association per call, or - one history in five - ONE handle kept and reused for every operation, Count and Find) with 1..3 owners that start without links, next to 0..2 outside owners with existing links; every operation also with no target at all (Append(), Replace(), Delete()); targets are new records, existing unlinked rows, rows linked to the same owner, rows linked to outside owners, and duplicates (equal copies or THE SAME object repeated inside a slice argument and followed by further targets; variadic or one slice argument); Count(), Find(), raw foreign keys / join rows of the handle AND of every other owner / owner type, the target table and the in-memory fields are read after every operation; domain: for has one / has many / polymorphic a target is never given to two different owners of one handle; distinct = distinct (relation, handle, table sizes, operation sequence with sizes) shapes; non-trivial = the stored links change at least twice"
 	lib.Must(out.Flush())
 }
